@@ -22,6 +22,7 @@ from . import vsym
 from .vsym import SymReal, NotModelled, lift, rv
 
 _is_sym = lambda x: isinstance(x, SymReal)  # noqa: E731
+BAND = 1e-6      # see _optimize: infeasible-by-less-than-BAND instances are excluded (tolerance band)
 
 
 def _numeric_or_none(v, what):
@@ -864,6 +865,25 @@ class Model(oi.Model):
             return status
 
         if not E.exists_fork(xs, feas_f, name="%s.feasible" % tag):
+            if BAND:
+                # tolerance band: inputs for which the LP is infeasible by less than BAND are outside every claim
+                # (a float solver with feasibility tolerance 1e-7 may call them feasible); keep the infeasible
+                # branch to inputs that are infeasible even with every bound relaxed by BAND
+                sl = rv(BAND)
+                rel = []
+                for v in V:
+                    if lbs[v] is not None:
+                        rel.append(x[v] >= lift(lbs[v]) - sl)
+                    if ubs[v] is not None:
+                        rel.append(x[v] <= lift(ubs[v]) + sl)
+                for c in rows:
+                    if lbs[c] is not None:
+                        rel.append(rowv[c] >= lift(lbs[c]) - sl)
+                    if ubs[c] is not None:
+                        rel.append(rowv[c] <= lift(ubs[c]) + sl)
+                if len(rel) == len(feas):       # no structurally false bound
+                    robust = E.forall_not(xs, z3.And(*rel) if rel else z3.BoolVal(True))
+                    E.assume(robust)
             return arbitrary(INFEASIBLE)
 
         # unbounded: improving direction in the recession cone (depends on the infinite-bound
